@@ -156,3 +156,14 @@ def ufunc_inv(func, args, icd, ocd, kwargs):
     o = tuple(ocd[0])
     return SymDA(tm.inv(At.term), o, {o[0]: At._ext[core[1]], o[1]: At._ext[core[0]]},
                  {o[0]: At._cid.get(core[1]), o[1]: At._cid.get(core[0])}, A.cplx, A.lazy)
+
+
+def ufunc_pinv(func, args, icd, ocd, kwargs):
+    """np.linalg.pinv through xr.apply_ufunc: equals the inverse for an invertible matrix; numpy's pinv has no
+    dask dispatch, so on a dask-backed argument it forces the computation (forcing table, DESIGN.md C12)"""
+    (A,) = args
+    if A.lazy:
+        ctx().events.append(("force", "np.linalg.pinv has no dask implementation: the argument is computed eagerly"))
+    r = ufunc_inv(func, args, icd, ocd, kwargs)
+    r.lazy = False
+    return r
